@@ -26,9 +26,9 @@ theorem TauLe.trans {a b c : Sk Rat} (h1 : TauLe a b) (h2 : TauLe b c) : TauLe a
 def entriesOf (g mark : Bool) (items : List (Int × Rat)) : List E :=
   (items.map (fun p => ({ item := p.1, wt := p.2, mark := g && mark } : E))).reverse
 
-theorem feed_spec (mark : Bool) (items : List (Int × Rat)) : ∀ (s : Sk Rat) (ins L : List E) (ds : Draws Rat),
+theorem feed_spec (T : Tunables) (mark : Bool) (items : List (Int × Rat)) : ∀ (s : Sk Rat) (ins L : List E) (ds : Draws Rat),
     Inv s ins L → (∀ p ∈ items, 0 < p.2) → (mark = true → s.gadget = true) →
-    ∃ s' ds' L', feed mark items s ds = some (s', ds') ∧ Inv s' (entriesOf s.gadget mark items ++ ins) L' ∧
+    ∃ s' ds' L', feed T mark items s ds = some (s', ds') ∧ Inv s' (entriesOf s.gadget mark items ++ ins) L' ∧
       s'.k = s.k ∧ s'.gadget = s.gadget ∧ s'.rf = s.rf ∧ TauLe s s' := by
   induction items with
   | nil =>
@@ -38,7 +38,7 @@ theorem feed_spec (mark : Bool) (items : List (Int × Rat)) : ∀ (s : Sk Rat) (
     intro s ins L ds hinv hpos hmg
     obtain ⟨x, w⟩ := p
     obtain ⟨s1, ds1, L1, hu, hinv1, hk1, hg1, hrf1, htau1⟩ :=
-      update_spec s ins L hinv x w mark ds (hpos (x, w) (by simp)) hmg
+      update_spec T s ins L hinv x w mark ds (hpos (x, w) (by simp)) hmg
     obtain ⟨s2, ds2, L2, hf, hinv2, hk2, hg2, hrf2, htau2⟩ :=
       ih s1 _ L1 ds1 hinv1 (fun q hq => hpos q (by simp [hq])) (by rw [hg1]; exact hmg)
     refine ⟨s2, ds2, L2, ?_, ?_, by rw [hk2, hk1], by rw [hg2, hg1], by rw [hrf2, hrf1], TauLe.trans htau1 htau2⟩
